@@ -54,7 +54,10 @@ def run(spec, ctx):
     for _ in range(spec["n"]):
         doc = gen.gen_doc(r, profile="unique", hostile=r.choice([0.1, 0.5]), max_depth=r.randint(2, 4), fan=r.randint(2, 4))
         names = gen.doc_names(doc)[:12] or ["a"]
-        fg = gen.FilterGen(r, names[:4] or ["a"], max_depth=2)
+        use_ctx = r.random() < 0.3
+        fg = gen.ExtFilterGen(r, names[:4] or ["a"], max_depth=2) if use_ctx else gen.FilterGen(r, names[:4] or ["a"], max_depth=2)
+        fctx = {"k": r.choice([2, "a", 1001, None]), "list": [r.choice(gen.MEM_LEAVES) for _ in range(3)] + names[:1], "o": {n: 1 for n in names[:3]}, "s": "ab", "names": names[:3], "zz": None} if use_ctx else None
+        kw = {"filter_context": fctx} if use_ctx else {}
         nops = r.choice([1, 1, 2, 2, 3, 4, 5])
         asts = []
         for _i in range(nops):
@@ -69,14 +72,16 @@ def run(spec, ctx):
         comp = [asts[0]] + [[op, q] for op, q in zip(ops, asts[1:])]
         rr = Renderer(r, blanks=0.1)
         text = rr.compound(comp)
-        case = {"text": text, "doc": doc, "comp": comp}
+        case = {"text": text, "doc": doc, "comp": comp, "filter_context": fctx}
+        if use_ctx:
+            ctx.count("cases_with_a_filter_context")
         ctx.evaluation()
         # base: each simple operand alone, through the compiled object
         operand = []
         bad = False
         for q in asts:
             t = Renderer(r, plain=True).top(q)
-            o = impl.call(lambda: [(tuple(m.parts), canon(m.obj), m.obj) for m in jsonpath.compile(t).finditer(doc)])
+            o = impl.call(lambda: [(tuple(m.parts), canon(m.obj), m.obj) for m in jsonpath.compile(t).finditer(doc, **kw)])
             if not o.ok:
                 bad = True
                 break
@@ -94,9 +99,9 @@ def run(spec, ctx):
             continue
         p = comp_c.value
         layers = {
-            "module": (lambda d: jsonpath.findall(text, d), lambda d: jsonpath.finditer(text, d), lambda d: jsonpath.match(text, d), lambda d: jsonpath.query(text, d)),
-            "env": (lambda d: env2.findall(text, d), lambda d: env2.finditer(text, d), lambda d: env2.match(text, d), lambda d: env2.query(text, d)),
-            "compiled": (lambda d: p.findall(d), lambda d: p.finditer(d), lambda d: p.match(d), lambda d: p.query(d)),
+            "module": (lambda d: jsonpath.findall(text, d, **kw), lambda d: jsonpath.finditer(text, d, **kw), lambda d: jsonpath.match(text, d, **kw), lambda d: jsonpath.query(text, d, **kw)),
+            "env": (lambda d: env2.findall(text, d, **kw), lambda d: env2.finditer(text, d, **kw), lambda d: env2.match(text, d, **kw), lambda d: env2.query(text, d, **kw)),
+            "compiled": (lambda d: p.findall(d, **kw), lambda d: p.finditer(d, **kw), lambda d: p.match(d, **kw), lambda d: p.query(d, **kw)),
         }
         jtext = json.dumps(doc)
 
@@ -147,9 +152,9 @@ def run(spec, ctx):
                     finally:
                         if closer is not None:
                             closer.close()
-        if not failed:
+        if not failed and not use_ctx:
             ctx.remember("entry-points", lambda text=text, doc=doc: (repr([canon(v) for v in jsonpath.findall(text, doc)]), repr(recs(jsonpath.compile(text).finditer(doc)))), limit=150)
-        if not failed and r.random() < 0.5:
+        if not failed and not use_ctx and r.random() < 0.5:
             # lazy entry points of ONE compiled object left half-consumed while another evaluation runs:
             # finditer/query must still list what findall lists
             doc2 = gen.gen_doc(r, profile="unique", hostile=0.1, max_depth=3, fan=3)
@@ -208,25 +213,26 @@ def replay(case, ctx):
     import jsonpath
 
     text, doc, comp = case["text"], case["doc"], case["comp"]
+    kw = {"filter_context": case["filter_context"]} if case.get("filter_context") else {}
     asts = [comp[0]] + [q for _, q in comp[1:]]
     ops = [op for op, _ in comp[1:]]
     import random
 
-    operand = [[(tuple(m.parts), canon(m.obj), m.obj) for m in jsonpath.compile(Renderer(random.Random(0), plain=True).top(q)).finditer(doc)] for q in asts]
+    operand = [[(tuple(m.parts), canon(m.obj), m.obj) for m in jsonpath.compile(Renderer(random.Random(0), plain=True).top(q)).finditer(doc, **kw)] for q in asts]
     want_full = fold(operand, ops)
     want = [(p, c) for p, c, _ in want_full]
     ctx.evaluation()
     p = jsonpath.compile(text)
-    for name, got in (("finditer", recs(p.finditer(doc))), ("module.finditer", recs(jsonpath.finditer(text, doc))), ("text", recs(p.finditer(json.dumps(doc)))), ("stringio", impl.call(lambda: recs(p.finditer(io.StringIO(json.dumps(doc))))).value),
+    for name, got in (("finditer", recs(p.finditer(doc, **kw))), ("module.finditer", recs(jsonpath.finditer(text, doc, **kw))), ("text", recs(p.finditer(json.dumps(doc), **kw))), ("stringio", impl.call(lambda: recs(p.finditer(io.StringIO(json.dumps(doc))))).value),
                       ("stringio.findall", impl.call(lambda: [(tuple(), canon(v)) for v in p.findall(io.StringIO(json.dumps(doc)))]).value and want)):
         if got != want:
             ctx.violation("entry-points-disagree:replay:%s" % name, case, {"got": repr(got)[:400], "want": repr(want)[:400]})
-    fa = [canon(v) for v in p.findall(doc)]
+    fa = [canon(v) for v in p.findall(doc, **kw)]
     if fa != [c for _, c in want]:
         ctx.violation("entry-points-disagree:replay:findall", case, {"got": repr(fa)[:400]})
-    m = p.match(doc)
+    m = p.match(doc, **kw)
     if (None if m is None else (tuple(m.parts), canon(m.obj))) != (want[0] if want else None):
         ctx.violation("entry-points-disagree:replay:match", case, {})
-    qv = [canon(v) for v in p.query(doc).values()]
+    qv = [canon(v) for v in p.query(doc, **kw).values()]
     if qv != [c for _, c in want]:
         ctx.violation("entry-points-disagree:replay:query", case, {"got": repr(qv)[:400]})
